@@ -134,6 +134,6 @@ theorem order_as_transcribed : LedgerFacts.order = expectedOrder := by decide
 theorem constants_match : LedgerFacts.consts = expectedConsts := by decide
 
 /-- The transaction fee of the model is `StrToBigInt("0.001")`. -/
-theorem fee_is_delta026 : strToBigInt "0.001" = .val txFee := by decide
+theorem fee_is_delta026 : strToBigInt "0.001" = .val txFee := by decide +kernel
 
 end Rangers.Props.C06Sites
